@@ -52,6 +52,7 @@ Fixpoint take (n : nat) (l : list byte) : option (list byte * list byte) :=
 Definition next_len (bs : list byte) : uv :=
   match read_uvarint bs with
   | UOverflow r | UNotMinimal r => read_uvarint r
+  | UUnexpectedEof => UEof     (* the ignored first call consumed the truncated varint; the second one sees a plain end of stream *)
   | x => x
   end.
 
